@@ -214,10 +214,7 @@ def r4(ctx, prog):
     f = prog.fn("mi_segment_free")
     cfg = f.cfg
     def dont_free_edge(lab, p, q):
-        fa = cfg.fact(lab)
-        if fa and fa[1] and f.nodes[f.strip(fa[0])]["k"] == "MemberExpr" and f.nodes[f.strip(fa[0])]["fld"] == "dont_free":
-            return False
-        return True
+        return not any(pol and rl.field_is(f, e, "dont_free") for e, pol in cfg.facts(lab))
     w = cfg.must_pass([cfg.entry], cfg.exit_points(), rl.through_call(prog, f, "mi_segment_os_free"), edge_ok=dont_free_edge)
     ctx.check(R, w is None, f.where(), "every path (except the segment->dont_free return) reaches mi_segment_os_free", key="C11.R4:mi_segment_free", witness=w)
     # (b) mi_segment_os_free -> _mi_arena_free on all paths, with the segment's recorded size
@@ -243,13 +240,7 @@ def r4(ctx, prog):
         # the branch itself must be reached unless p==NULL or size==0
         p0, p1 = f.param_id(0), f.param_id(1)
         def early_ok(lab, p, q):
-            fa = cfg.fact(lab)
-            if fa is None:
-                return True
-            e, pol = fa
-            if rl.fact_null(f, e, pol, rl.is_var(f, p0)) or rl.fact_null(f, e, pol, rl.is_var(f, p1)):
-                return False
-            return True
+            return not any(rl.fact_null(f, e, pol, rl.is_var(f, p0)) or rl.fact_null(f, e, pol, rl.is_var(f, p1)) for e, pol in cfg.facts(lab))
         branch_pts = {p for p, q, e, pol in rl.edges_with_fact(f, lambda e, pol: rl.is_call(f, f.strip(e), "mi_memkind_is_os"))}
         w = cfg.must_pass([cfg.entry], cfg.exit_points(), lambda e: False,
                           edge_ok=lambda lab, p, q: early_ok(lab, p, q) and p not in branch_pts)
@@ -273,23 +264,16 @@ def r4(ctx, prog):
     cfg = f.cfg
     p0, p1 = f.param_id(0), f.param_id(1)
     def ok_edge(lab, p, q):
-        fa = cfg.fact(lab)
-        if fa is None:
-            return True
-        e, pol = fa
-        return not (rl.fact_null(f, e, pol, rl.is_var(f, p0)) or rl.fact_null(f, e, pol, rl.is_var(f, p1)))
+        return not any(rl.fact_null(f, e, pol, rl.is_var(f, p0)) or rl.fact_null(f, e, pol, rl.is_var(f, p1)) for e, pol in cfg.facts(lab))
     w = cfg.must_pass([cfg.entry], cfg.exit_points(), rl.call_to("_mi_prim_free")(f), edge_ok=ok_edge)
     ctx.check(R, w is None, f.where(), "every path with addr!=NULL and size!=0 calls _mi_prim_free", key="C11.R4:mi_os_prim_free", witness=w)
     # (f) thread data
     f = prog.fn("mi_thread_data_free")
     cfg = f.cfg
     def cas_success(lab, p, q):
-        fa = cfg.fact(lab)
-        if fa is None:
-            return True
-        e, pol = fa
-        if pol and any(f.nodes[x]["k"] == "AtomicExpr" and f.nodes[x]["aop"].startswith("cas") for x in f.walk(e)):
-            return False
+        for e, pol in cfg.facts(lab):
+            if pol and any(f.nodes[x]["k"] == "AtomicExpr" and f.nodes[x]["aop"].startswith("cas") for x in f.walk(e)):
+                return False
         return True
     w = cfg.must_pass([cfg.entry], cfg.exit_points(), rl.call_to(("_mi_os_free", "_mi_os_free_ex"))(f), edge_ok=cas_success)
     ctx.check(R, w is None, f.where(), "every path ends in a successful cache CAS or _mi_os_free", key="C11.R4:mi_thread_data_free", witness=w)
